@@ -34,8 +34,8 @@ func (a *AspectEliminationBiasListener) Spec_OnCriterionAdded(
 	generator utils.ValueGenerator,
 ) model.AddedCriterionParams {
 	pParams := params.(AspectEliminationHeuristicParams)
-	newValue := model.NewCriterionValue(&pParams.Weights, referenceCriterion, &generator)
-	listener, methodParams := a.getMethodParams(pParams)
+	newValue := model.Spec_NewCriterionValue(&pParams.Weights, referenceCriterion, &generator)
+	listener, methodParams := a.Spec_getMethodParams(pParams)
 	addedParams := listener.OnCriterionAdded(criterion, referenceCriterion, methodParams, generator)
 	return aspectEliminationAddedCriterion{
 		Weights: model.Weights{criterion.Id: newValue},
@@ -44,7 +44,7 @@ func (a *AspectEliminationBiasListener) Spec_OnCriterionAdded(
 }
 
 func (a *AspectEliminationBiasListener) Spec_getMethodParams(pParams AspectEliminationHeuristicParams) (satisfaction_levels.SatisfactionLevelsUpdateListener, satisfaction_levels.SatisfactionLevels) {
-	return a.satisfactionLevelsUpdateListeners.Get(pParams.Function, pParams.Params)
+	return a.satisfactionLevelsUpdateListeners.Spec_Get(pParams.Function, pParams.Params)
 }
 
 func (a *AspectEliminationBiasListener) Spec_OnCriteriaRemoved(
@@ -52,19 +52,19 @@ func (a *AspectEliminationBiasListener) Spec_OnCriteriaRemoved(
 	params model.MethodParameters,
 ) model.MethodParameters {
 	pParams := params.(AspectEliminationHeuristicParams)
-	listener, methodParams := a.getMethodParams(pParams)
+	listener, methodParams := a.Spec_getMethodParams(pParams)
 	afterRemoveParams := listener.OnCriteriaRemoved(leftCriteria, methodParams)
-	return pParams.with(afterRemoveParams, pParams.Weights.PreserveOnly(leftCriteria))
+	return pParams.Spec_with(afterRemoveParams, pParams.Weights.Spec_PreserveOnly(leftCriteria))
 }
 
 func (a *AspectEliminationBiasListener) Spec_RankCriteriaAscending(params *model.DecisionMakingParams) *model.WeightedCriteria {
 	wParams := params.MethodParameters.(AspectEliminationHeuristicParams)
-	return params.Criteria.SortByWeights(wParams.Weights)
+	return params.Criteria.Spec_SortByWeights(wParams.Weights)
 }
 
 func (a *AspectEliminationBiasListener) Spec_Merge(params model.MethodParameters, addition model.MethodParameters) model.MethodParameters {
 	pParams := params.(AspectEliminationHeuristicParams)
 	aParams := addition.(aspectEliminationAddedCriterion)
-	listener, methodParams := a.getMethodParams(pParams)
-	return pParams.with(listener.Merge(methodParams, aParams.Params), pParams.Weights.Merge(&aParams.Weights))
+	listener, methodParams := a.Spec_getMethodParams(pParams)
+	return pParams.Spec_with(listener.Merge(methodParams, aParams.Params), pParams.Weights.Spec_Merge(&aParams.Weights))
 }
